@@ -135,6 +135,12 @@ def limitOf (n : Int) : Option Nat := if n < 0 then none else some n.toNat
 
 /-! ## nullable -/
 
+/-- a lookup that raises `e` when nothing is found -/
+def ofOption (o : Option α) (e : Err) : Except Err α :=
+  match o with
+  | some v => .ok v
+  | none => .error e
+
 /-- `x if x is not None else d` -/
 def orElse (x : Option α) (d : α) : α := match x with | some v => v | none => d
 
